@@ -78,6 +78,7 @@ impl Arm for EnumArm {
             EnumKind::BitFlips => "all-bit-flips".into(),
             EnumKind::Truncations => "all-truncations".into(),
             EnumKind::Counts => "all-count-fields".into(),
+            EnumKind::Coordinated => "all-coordinated-edits".into(),
         }
     }
     fn runs(&self, tier: Tier, seed: u64) -> u64 {
@@ -97,6 +98,7 @@ impl Arm for EnumArm {
             EnumKind::BitFlips => "bit_flip",
             EnumKind::Truncations => "truncation",
             EnumKind::Counts => "count_field_boundary_value",
+            EnumKind::Coordinated => "coordinated_self_consistent_edit",
         });
         danger_zone(ch);
         let d = base.deliver(&data, false, Inputs::Matching, 0, ch, ctx);
@@ -143,6 +145,7 @@ pub fn spec() -> CheckSpec {
     let iso = |a: Box<dyn Arm>| -> Box<dyn Arm> { Box::new(IsoArm { check_id: "C03", inner: a, timeout_s: 60, exe_env: None, alias: None }) };
     let arms: Vec<Box<dyn Arm>> = vec![
         iso(Box::new(EnumArm { kind: EnumKind::Counts, index: OnceLock::new(), quick_bases: usize::MAX })),
+        iso(Box::new(EnumArm { kind: EnumKind::Coordinated, index: OnceLock::new(), quick_bases: usize::MAX })),
         iso(Box::new(EnumArm { kind: EnumKind::BitFlips, index: OnceLock::new(), quick_bases: 14 })),
         iso(Box::new(SampledArm)),
         Box::new(crate::c03_adaptive::AdaptiveArm),
